@@ -7,9 +7,11 @@ import MythVerif.Basic.Upd
     C code works on: `top`, `base`, the slot array `ptr` (a total function `Int → Option Elem`,
     so that an out-of-range index is representable and has to be *proved* absent), `size`, and
     the pointer word of the steal cache `wc.ptr`.  Configuration modelled: `MYTH_QUEUE_LIFO=1`,
-    `QUICK_CHECK_ON_POP=1`, `QUICK_CHECK_ON_STEAL=1`, `USE_LOCK*=0`, `myth_assert` compiled out
-    (`MYTH_SANITY_CHECK=0`; the one assertion that is a *contract* – `clear` on an empty queue –
-    is kept as an explicit outcome).  The two `abort()` guards are explicit outcomes. -/
+    `QUICK_CHECK_ON_POP=1`, `QUICK_CHECK_ON_STEAL=1`, `USE_LOCK*=0`.  `myth_assert` is live in this
+    configuration (`MYTH_SANITY_CHECK=1`): the assertion that is a *contract* – `clear` on an empty
+    queue – is an explicit outcome; the others (`offset<0`, `t<size`, `b>0`, `base>0`) are implied by
+    well-formedness (`Proofs/WsQueueSeq.lean`, clauses `pum/puv/pt3/pt7` of the SC invariant).  The
+    two `abort()` guards are explicit outcomes. -/
 namespace MythVerif.Wsq
 
 abbrev Elem := Nat
